@@ -155,10 +155,13 @@ def ionicStrengthVec [LT α] [DecidableLT α] [LE α] [DecidableLE α]
 
 /-! ### dict form -/
 
-/-- ASCII white space of `str.split()` -/
+/-- white space of `str.split()` (= `str.isspace()`) -/
 def isPyWs (c : Char) : Bool :=
   c == ' ' || c == '\t' || c == '\n' || c == '\r' || c == '\x0b' || c == '\x0c' ||
-  c == '\x1c' || c == '\x1d' || c == '\x1e' || c == '\x1f'
+  c == '\x1c' || c == '\x1d' || c == '\x1e' || c == '\x1f' ||
+  -- the non-ASCII code points with `str.isspace()` (CPython 3.12): NEL, NBSP, OGHAM SPACE, EN QUAD … HAIR SPACE, LS, PS, NNBSP, MMSP, IDEOGRAPHIC SPACE
+  c.toNat == 0x85 || c.toNat == 0xa0 || c.toNat == 0x1680 || (0x2000 ≤ c.toNat && c.toNat ≤ 0x200a) ||
+  c.toNat == 0x2028 || c.toNat == 0x2029 || c.toNat == 0x202f || c.toNat == 0x205f || c.toNat == 0x3000
 
 /-- `s.split()` -/
 def pySplitAux : List Char → List Char → List (List Char)
@@ -294,11 +297,12 @@ def limitingClassCall (stoich z : List α) (T eps_r rho : α) (c : List α) : Ex
     | .error e => .error e
     | .ok v => .ok (v, w)
 
-/-- `ExtendedDebyeHuckelActivityProduct(stoich, z, a, T, eps_r, rho, C)(c)` (electrolytes.py:264-268) -/
-def extendedClassCall (stoich z a : List α) (T eps_r rho C : α) (c : List α) : Except Err (α × Bool) :=
+/-- `ExtendedDebyeHuckelActivityProduct(stoich, z, a, T, eps_r, rho[, C])(c)` (electrolytes.py:264-268): the arguments are passed on
+    with `*self.args`, so a missing `C` takes the default of `extended_activity_product` (`C=0`, pinned by `sig_products_guard`) -/
+def extendedClassCall (stoich z a : List α) (T eps_r rho : α) (C : Option α) (c : List α) : Except Err (α × Bool) :=
   match ionicStrength c z true with
   | .error e => .error e
-  | .ok (IS, w) => match extendedActivityProduct IS stoich z a T eps_r rho C with
+  | .ok (IS, w) => match extendedActivityProduct IS stoich z a T eps_r rho (C.getD ((0 : Nat) : α)) with
     | .error e => .error e
     | .ok v => .ok (v, w)
 
